@@ -13,6 +13,9 @@ import Operon.Gen.QuorumConsts
   the `min_voters` gate on permit+block, the share-of-colony / `math.ceil` reading of the count threshold,
   `threshold / len(colony)`.  (Behaviour after the two `fix:` commits 7c2ca31 and 7123d76.)
 
+  `bioVoters` models the un-stubbed colony (real `BioAgent`s of role "Voter" from core/agent.py) for three classes
+  of proposal text and a plain shared ATP budget.
+
   Not modelled: console output, timing, statistics/history, callbacks, reliability *updates*
   (`update_reliability`; the harness sets `reliability_score` directly), `weighted_score` /
   `confidence_score` are computed but not part of the correspondence (floats).
@@ -242,6 +245,32 @@ def runVote (cfg : Cfg) (voters : List Voter) : Result :=
 def runVoteRaises (cfg : Cfg) (voters : List Voter) : Bool :=
   decide (voters.length = 0) && decide (cfg.strategy = .threshold) &&
     !decide (activeCount (collect voters) < cfg.minVoters)
+
+/-- How a real `BioAgent` of role "Voter" (core/agent.py) sees the proposal text. -/
+inductive PromptClass where
+  | safe        -- passes the membrane, no dangerous marker
+  | dangerous   -- passes the membrane, contains a dangerous marker ("delete all", "rm -rf", …)
+  | rejected    -- the agent's membrane filter rejects it
+  deriving Repr, DecidableEq
+
+/-- a colony member as `QuorumSensing.__init__` creates it (weight 1, reliability 1) whose agent answers with a
+    text payload (no confidence entry) -/
+def bioVoter (k : Kind) : Voter := ⟨k, .absent, 1, 1⟩
+
+/-- `BioAgent.express` for the `n` colony members in order, sharing one ATP budget: membrane rejection ⇒ BLOCK
+    (nothing spent); fewer than 10 ATP left ⇒ action "FAILURE"; otherwise 10 ATP are spent and the mock model answers
+    BLOCK on a dangerous marker, PERMIT otherwise. -/
+def bioVoters (p : PromptClass) : Nat → Nat → List Voter
+  | _, 0 => []
+  | budget, n + 1 =>
+    match p with
+    | .rejected => bioVoter .block :: bioVoters p budget n
+    | .dangerous =>
+      if 10 ≤ budget then bioVoter .block :: bioVoters p (budget - 10) n
+      else bioVoter .other :: bioVoters p budget n
+    | .safe =>
+      if 10 ≤ budget then bioVoter .permit :: bioVoters p (budget - 10) n
+      else bioVoter .other :: bioVoters p budget n
 
 def strategyOfName? : String → Option Strategy
   | "MAJORITY" => some .majority
